@@ -961,4 +961,86 @@ theorem ValidModel.readings_valid {s d : Nat} {m : Model (NodeD d)} (h : ValidMo
   obtain ⟨n, hn, hl'⟩ := List.mem_flatMap.mp hl
   exact ValidD.leaves_valid (d + 1) n (h.nodes n hn) l hl'
 
+/-- An adapter raises only for a GroupNormalization at step 20→21 that lacks an input or `num_groups`. -/
+theorem adapt_raised_iff (op : Op) (v : Nat) :
+    adapt op v = .raised ↔
+      ∃ n, op = .groupNorm n ∧ v = 20 ∧ ((n.hasX && n.hasScale && n.hasBias) = false ∨ n.groups = none) := by
+  cases op with
+  | plain n => simp [adapt]
+  | const a b => simp [adapt]
+  | call f => simp [adapt]
+  | gridSample m a p =>
+    simp only [adapt]
+    constructor
+    · intro h
+      split at h
+      · simp only [gridsample_19_20] at h
+        split at h <;> (try split at h) <;> cases h
+      · cases h
+    · rintro ⟨n, h, _⟩; cases h
+  | dft a i o l ai r =>
+    simp only [adapt]
+    constructor
+    · intro h
+      split at h
+      · simp [dft_19_20] at h
+      · cases h
+    · rintro ⟨n, h, _⟩; cases h
+  | groupNorm n =>
+    simp only [adapt]
+    constructor
+    · intro h
+      split at h
+      · rename_i hv
+        refine ⟨n, rfl, hv, ?_⟩
+        unfold groupnormalization_20_21 at h
+        by_cases h1 : (!(n.hasX && n.hasScale && n.hasBias)) = true
+        · left
+          cases hq : (n.hasX && n.hasScale && n.hasBias) with
+          | false => rfl
+          | true => rw [hq] at h1; cases h1
+        · simp only [h1] at h
+          cases hg : n.groups with
+          | none => right; rfl
+          | some g =>
+            simp only [hg] at h
+            simp at h
+            split at h
+            · cases h
+            · split at h <;> cases h
+      · cases h
+    · rintro ⟨n', h, hv, hc⟩
+      injection h with h; subst h; subst hv
+      simp only [if_true, groupnormalization_20_21]
+      rcases hc with hc | hc
+      · simp [hc]
+      · by_cases h1 : (!(n.hasX && n.hasScale && n.hasBias)) = true
+        · simp [h1]
+        · simp [h1, hc]
+
+theorem good_unit_of_wellformed {op : Op} (h : WellFormedGN op) (v : Nat) : Good (fun _ _ => ()) op v := by
+  unfold Good
+  cases hA : adapt op v with
+  | raised =>
+    obtain ⟨n, hop, _, hc⟩ := (adapt_raised_iff op v).mp hA
+    obtain ⟨⟨hx, hs, hb⟩, hg⟩ := h n hop
+    rcases hc with hc | hc
+    · simp [hx, hs, hb] at hc
+    · exact absurd hc hg
+  | noAdapter => trivial
+  | retNone => rfl
+  | replaced news => exact replaced_one_principal hA
+
+theorem ShapeD.toSrc {β} {μ : Op → Nat → β} {P : Op → Prop} {s : Nat}
+    (hP : ∀ op, P op → ∀ v', s ≤ v' → Good μ op v') : (d : Nat) → (a : NodeD d) → ShapeD P s d a → SrcD μ s d a
+  | 0, _, h => ⟨h.ver, h.noRef, fun hd v' hv' => hP _ (h.op hd) v' hv'⟩
+  | d + 1, n, h =>
+    ⟨⟨h.leaf.ver, h.leaf.noRef, fun hd v' hv' => hP _ (h.leaf.op hd) v' hv'⟩, h.ctrl,
+      fun b hb a ha => ShapeD.toSrc hP d a (h.bodies b hb a ha), h.customFlat⟩
+
+theorem ShapeModel.selfConsistent {s d : Nat} {m : Model (NodeD d)} (h : ShapeModel WellFormedGN s m) :
+    SelfConsistent (fun _ _ => ()) s m :=
+  ⟨h.declared, h.noAi, h.inlined, fun n hn =>
+    ShapeD.toSrc (fun _ hw v' _ => good_unit_of_wellformed hw v') (d + 1) n (h.nodes n hn)⟩
+
 end OV.C10
